@@ -72,7 +72,8 @@ pub fn real_lossy_content(d: &deb822_lossless::lossy::Deb822) -> Vec<Vec<(String
 
 /// C06 relation: same paragraphs, names, and per field the same non-blank value lines.
 pub fn nonblank_lines(v: &str) -> Vec<String> {
-    v.split(|c| c == '\n' || c == '\r').filter(|l| !l.is_empty()).map(|l| l.to_string()).collect()
+    // (the lines of a value are separated by LF in both APIs: a CR left inside a value is part of a line)
+    v.split('\n').filter(|l| !l.is_empty()).map(|l| l.to_string()).collect()
 }
 pub fn agree(a: &[Vec<(String, String)>], b: &[Vec<(String, String)>]) -> bool {
     a.len() == b.len() && a.iter().zip(b.iter()).all(|(p, q)| {
